@@ -11,6 +11,7 @@ import (
 	"fmt"
 	"io"
 	"net"
+	"strings"
 	"sync"
 	"sync/atomic"
 	"time"
@@ -23,8 +24,8 @@ import (
 )
 
 const (
-	interval = 40 * time.Millisecond
-	t6       = 30 * time.Millisecond
+	baseInterval = 40 * time.Millisecond
+	baseT6       = 30 * time.Millisecond
 )
 
 type peerKind int
@@ -44,6 +45,8 @@ type peer struct {
 	conn      net.Conn
 	kind      peerKind
 	threshold int
+	interval  time.Duration
+	t6        time.Duration
 	wmu       sync.Mutex
 	probes    atomic.Int64 // Linktest.req received
 	selectedT atomic.Int64 // unix nanos when Select.rsp had been written
@@ -106,7 +109,7 @@ func (p *peer) run() {
 					extra.Add(1)
 					go func() {
 						defer extra.Done()
-						tk := time.NewTicker(interval / 4)
+						tk := time.NewTicker(p.interval / 4)
 						defer tk.Stop()
 						sys := uint32(1 << 20)
 						for {
@@ -133,7 +136,7 @@ func (p *peer) run() {
 				extra.Add(1)
 				go func() {
 					defer extra.Done()
-					time.Sleep(t6 / 3)
+					time.Sleep(p.t6 / 3)
 					rsp, _ := hsms.NewLinktestRsp(cm)
 					_ = p.write(rsp.ToBytes())
 				}()
@@ -146,7 +149,7 @@ func (p *peer) run() {
 				extra.Add(1)
 				go func() {
 					defer extra.Done()
-					time.Sleep(t6 / 3)
+					time.Sleep(p.t6 / 3)
 					_ = p.write(dataFrame(uint32(1<<21) + uint32(n)))
 				}()
 			}
@@ -161,9 +164,15 @@ type scenario struct {
 	kind      peerKind
 	threshold int
 	suppress  bool
+	scale     int // all protocol timings are multiplied by this (1, or 4 on a re-run after a punctuality alarm)
 }
 
 func runScenario(c *vh.Ctx, sc scenario) {
+	if sc.scale < 1 {
+		sc.scale = 1
+	}
+	interval := baseInterval * time.Duration(sc.scale)
+	t6 := baseT6 * time.Duration(sc.scale)
 	var mu sync.Mutex
 	var peers []*peer
 	dials := 0
@@ -176,14 +185,14 @@ func runScenario(c *vh.Ctx, sc scenario) {
 			k = answering // the generation after a linktest disconnect: a healthy peer
 		}
 		dials++
-		p := &peer{conn: b, kind: k, threshold: sc.threshold, stop: make(chan struct{}), done: make(chan struct{})}
+		p := &peer{conn: b, kind: k, threshold: sc.threshold, interval: interval, t6: t6, stop: make(chan struct{}), done: make(chan struct{})}
 		peers = append(peers, p)
 		go p.run()
 		return a, nil
 	}
 	cfg, err := hsmsss.NewConfig("127.0.0.1", 5000, hsmsss.WithActive(), hsmsss.WithDialer(dial),
 		hsmsss.WithConnectionOption(hsms.WithT6(t6)),
-		hsmsss.WithConnectionOption(hsms.WithT5(20*time.Millisecond)),
+		hsmsss.WithConnectionOption(hsms.WithT5(20*time.Millisecond*time.Duration(sc.scale))),
 		hsmsss.WithConnectionOption(hsms.WithT7(2*time.Second)),
 		hsmsss.WithConnectionOption(hsms.WithLinktestInterval(interval)),
 		hsmsss.WithConnectionOption(hsms.WithLinktestFailThreshold(sc.threshold)),
@@ -304,7 +313,7 @@ func main() {
 				}
 			}
 			for _, th := range ths {
-				scs = append(scs, scenario{k, th, sup})
+				scs = append(scs, scenario{kind: k, threshold: th, suppress: sup})
 			}
 		}
 	}
@@ -335,11 +344,51 @@ var ctxMu sync.Mutex
 
 // the vh.Ctx is not goroutine-safe: scenarios run concurrently but report under one lock
 func runScenarioLocked(c *vh.Ctx, sc scenario) {
-	local := &vh.Ctx{}
-	*local = vh.Ctx{Seed: c.Seed, Tier: c.Tier}
-	local.Sum.Histogram = map[string]int{}
-	runScenario(local, sc)
+	var local *vh.Ctx
+	retried := false
+	for attempt := 0; attempt < 3; attempt++ {
+		local = &vh.Ctx{}
+		*local = vh.Ctx{Seed: c.Seed, Tier: c.Tier}
+		local.Sum.Histogram = map[string]int{}
+		if attempt > 0 {
+			sc.scale = 4
+			retried = true
+		}
+		runScenario(local, sc)
+		if !punctualityAlarm(local) {
+			break
+		}
+	}
 	ctxMu.Lock()
 	defer ctxMu.Unlock()
+	if retried {
+		local.Count("E/re-run-at-4x-timings-after-a-punctuality-alarm")
+	}
 	c.Merge(local)
+}
+
+// punctualityAlarm: the scenario failed only in a way that a late harness/peer goroutine can cause
+// on correct code (a "live" peer whose answer or chatter was delayed past T6 / the interval by the
+// scheduler, an Open that timed out). Such a scenario is run again with every protocol timing x4,
+// twice; it is reported only if it fails every time (a defect in the accounting rules fails at any
+// time scale). Failures that no delay can cause (probe counts for a dead peer, a disconnect earlier
+// than the lower bound, counters that never moved) are reported at once.
+func punctualityAlarm(l *vh.Ctx) bool {
+	if len(l.Sum.OracleFailures) == 0 {
+		return false
+	}
+	for _, f := range l.Sum.OracleFailures {
+		w := f.What
+		switch {
+		case strings.HasPrefix(w, "a peer showing life was disconnected"),
+			strings.HasPrefix(w, "suppression on, traffic flowing within every interval"),
+			strings.HasPrefix(w, "suppression off: only"),
+			strings.HasPrefix(w, "open failed"),
+			strings.HasPrefix(w, "dead peer not disconnected"):
+		default:
+			return false
+		}
+	}
+
+	return true
 }
